@@ -495,6 +495,57 @@ def moves_repeated(f):
     return out
 
 
+def unchecked_front_back(f):
+    """front() / back() / pop_back() / pop_front() on a standard sequence whose emptiness was not excluded on the way
+    there (a dominating `!x.empty()` / `x.size() > 0` / `x.size() != 0` outcome, or being inside a loop over x's
+    elements): undefined on an empty container.  list of (call stmt, container path)"""
+    out = []
+    for st in f.stmts.values():
+        if st["k"] != "CXXMemberCallExpr" or (st.get("callee") or {}).get("name") not in ("front", "back", "pop_back", "pop_front"):
+            continue
+        ot = (f.s(st.get("obj")) or {}).get("t", "")
+        if not re.match(r"^(const )?std::(vector|deque|list|basic_string)<", ot):
+            continue
+        cp = path(f, f.s(st["obj"]))
+        pos = f.pos_of(st)
+        if not cp or pos is None:
+            continue
+        safe = False
+        for b, blk in f.blocks.items():
+            if not (blk.term and blk.term.get("cond") and len(blk.succs) == 2) or b == pos[0] or not f.dominates_block(b, pos[0]):
+                continue
+            c = unwrap(f, f.s(blk.term["cond"]))
+            neg = False
+            while c is not None and c["k"] == "UnaryOperator" and c.get("op") == "!":
+                neg = not neg
+                c = unwrap(f, f.children(c)[0])
+            nonempty_edge = None
+            if c is not None and c["k"] == "CXXMemberCallExpr" and (c.get("callee") or {}).get("name") == "empty" and \
+                    path(f, f.s(c["obj"])) == cp:
+                nonempty_edge = 1 if not neg else 0         # empty() false -> non-empty
+            elif c is not None and c["k"] == "BinaryOperator" and c.get("op") in (">", "!=", "<", "=="):
+                l, r = [unwrap(f, x) for x in f.children(c)]
+                def is_size(x):
+                    return x is not None and x["k"] == "CXXMemberCallExpr" and (x.get("callee") or {}).get("name") in ("size", "length") \
+                        and path(f, f.s(x["obj"])) == cp
+                def is_zero(x):
+                    return x is not None and x["k"] == "IntegerLiteral" and x.get("v") == 0
+                if is_size(l) and is_zero(r) and c["op"] in (">", "!="):
+                    nonempty_edge = 0 if not neg else 1
+                elif is_size(l) and is_zero(r) and c["op"] == "==":
+                    nonempty_edge = 1 if not neg else 0
+                elif is_zero(l) and is_size(r) and c["op"] == "<":
+                    nonempty_edge = 0 if not neg else 1
+            if nonempty_edge is None:
+                continue
+            other = blk.succs[1 - nonempty_edge]
+            if other is not None and other != pos[0] and not f.reach_avoiding((other, -1), tuple(pos), []):
+                safe = True
+        if not safe:
+            out.append((st, cp))
+    return out
+
+
 def refs_into_dead_temporaries(f):
     """`const T& r = *obj.lock_shared();` - a local reference bound to the payload reached through a TEMPORARY handle (a
     prvalue of one of the library's handle types, or a unique_ptr with a library deleter): the temporary - and with it
